@@ -12,6 +12,12 @@ CHECKS = {
 CHECKS["C05"] = dict(level="exploration", technique="TLA+ TypeLang operators (Shape/ShapeOfTs/ShapeOfZod) as oracle; TLC bounded-exhaustive enumeration of Rust type expressions replayed through the real CLI; parsed output trace-validated by TLC",
     text="Every Rust type expression TLC enumerates from Gen_Types (5 leaf classes under <=2 (quick) / <=3 (thorough) of 21 one-hole contexts, binary nodes with composite arguments, simulated deeper chains) is generated at each of the five translation sites in both modes by the real CLI; TLC judges each observation with ShapeEq(Shape(rust), ShapeOfTs|ShapeOfZod(emitted)). Bounded-exhaustive exploration with a specification oracle, not a proof.",
     note="Trusted: the TS-subset parser, TLC, the reading of the README type table in TypeLang.tla. Only minimal rejected expressions are reported.", ref="6 (C05)")
+CHECKS["C10"] = dict(level="exploration", technique="TLA+ TypeLang operators (ShapeOfZod vs ShapeOfTs, ZodMatchesPlain) as oracle over TLC-enumerated types generated in both modes by the real CLI; trace validation by TLC",
+    text="For every TLC-enumerated Rust type at the parameter and field sites, the Zod-mode schema and the plain-mode type of the same project are parsed and TLC checks that they denote the same structure (Option as omittable); declared names and key sets of a feature project are compared likewise. Bounded-exhaustive exploration with a specification oracle.",
+    note="The value-level half (not rejected / JSON-serialisable) is decided structurally, not by running Zod (not available offline). Trusted: TS parser, TLC.", ref="6 (C10)")
+CHECKS["C18"] = dict(level="exploration", technique="TLA+ Subst/Shape operators; TLC enumerates types over mapped source names; real CLI run with and without the mapping table; differential trace validation by TLC",
+    text="TLC enumerates type expressions over the source names of a type_mappings table (plain, generic, and one that is also a project struct) under up to 2 contexts together with their substituted twins (TypeLang!Subst); both are generated at every site in both modes; TLC checks that T[N] under the mapping denotes what T[M] denotes, that mapped names are neither declared nor referenced, and that unmapped types are AST-identical with and without the table.",
+    note="Targets limited to string/number/boolean as the property states. Trusted: TS parser, TLC.", ref="6 (C18)")
 NOT_YET = {}
 def main():
     props = [json.loads(l) for l in open(os.path.join(VERIF, "properties.jsonl"))]
